@@ -657,9 +657,70 @@ fn string_rules(cx: &mut Ctx) {
         let p_mix = t.find("ifhas_bytes&&num_bytes<values.len(){returnErr(LexicalError{error:LexicalErrorType::OtherError(\"cannot mix bytes and nonbytes literals\".to_owned()),location:initial_start});}");
         let p_dec = t.find("parse_string(");
         let defs = t.contains("letnum_bytes=values.iter().filter(|(_,(_,kind,..),_)|kind.is_any_bytes()).count();lethas_bytes=0<num_bytes;");
-        match (p_mix, p_dec) {
-            (Some(a), Some(b)) if a < b && defs => cx.ok(rule, "mixing bytes and text literals is rejected before any literal is decoded"),
-            _ => cx.fail(rule, &format!("{}/mixing", rule), &s.loc(ps), "the bytes/text mixing check is missing, altered, or comes after decoding"),
+        // interpreted: for every sequence of literal kinds (text / bytes, length 1..=3) the head of parse_strings
+        // either returns the mixing error -- exactly when bytes and non-bytes literals both occur -- before any
+        // literal is decoded, or goes on to decode
+        let interpreted = (|| -> Result<usize, String> {
+            use crate::eval::{Machine, V};
+            let pname = ps.sig.inputs.first().and_then(|a| if let syn::FnArg::Typed(pt) = a { Some(sm::tsc(&pt.pat)) } else { None }).ok_or("no parameter")?;
+            let kinds = ["String", "Bytes", "FString", "RawBytes", "Unicode"];
+            let mut seqs: Vec<Vec<&str>> = vec![];
+            for a in kinds {
+                seqs.push(vec![a]);
+                for b in kinds {
+                    seqs.push(vec![a, b]);
+                    for c in ["String", "Bytes"] {
+                        seqs.push(vec![a, b, c]);
+                    }
+                }
+            }
+            let n = seqs.len();
+            for seq in seqs {
+                let decoded = std::cell::Cell::new(false);
+                let methods = |recv: &V, m: &str, _a: &[V]| -> Option<V> {
+                    match (recv, m) {
+                        (V::Enum(k), "is_any_bytes") => Some(V::Bool(k.ends_with("Bytes"))),
+                        (V::Enum(k), "is_any_fstring") => Some(V::Bool(k.ends_with("FString"))),
+                        (V::Enum(k), "is_unicode") => Some(V::Bool(k.ends_with("Unicode"))),
+                        (V::Enum(k), "is_raw") => Some(V::Bool(k.contains("Raw"))),
+                        (V::Unit, "parse_string") => {
+                            decoded.set(true);
+                            None
+                        }
+                        _ => None,
+                    }
+                };
+                let items: Vec<V> = seq.iter().enumerate().map(|(i, k)| V::Tuple(vec![V::Int(10 * i as i128), V::Tuple(vec![V::Str("x".into()), V::Enum(format!("StringKind::{}", k)), V::Bool(false)]), V::Int(10 * i as i128 + 5)])).collect();
+                let mut mach = Machine::new(&methods);
+                mach.set(&pname, V::List(items));
+                let ret = mach.run_tolerant(&ps.block.stmts);
+                let is_bytes = |k: &str| k.ends_with("Bytes");
+                let mixed = seq.iter().any(|k| is_bytes(k)) && seq.iter().any(|k| !is_bytes(k));
+                let got_mix_err = matches!(&ret, Some(V::Enum(e)) if e.starts_with("Err(") && e.contains("cannot mix bytes and nonbytes literals"));
+                if mixed && (!got_mix_err || decoded.get()) {
+                    return Err(format!("kinds {:?}: {}", seq, if decoded.get() { "a literal is decoded before the mixing error" } else { "no mixing error" }));
+                }
+                if !mixed && got_mix_err {
+                    return Err(format!("kinds {:?}: rejected as mixed", seq));
+                }
+                if mixed {
+                    // the error is reported at the start of the first literal
+                    if let Some(V::Enum(e)) = &ret {
+                        if !e.contains("location:Int(0)") {
+                            return Err(format!("kinds {:?}: the mixing error is not located at the first literal's start ({})", seq, e));
+                        }
+                    }
+                }
+            }
+            Ok(n)
+        })();
+        let _ = (p_mix, p_dec, defs);
+        match &interpreted {
+            Ok(n) => {
+                cx.unit("kind sequences on which the head of parse_strings was interpreted", *n);
+                cx.ok(rule, "mixing bytes and text literals is rejected before any literal is decoded")
+            }
+            Err(e) => cx.fail(rule, &format!("{}/mixing", rule), &s.loc(ps), &format!("the bytes/text mixing check is missing, altered, or comes after decoding: {}", e)),
         }
     } else {
         cx.anchor_missing(rule, "parse_strings");
@@ -668,14 +729,16 @@ fn string_rules(cx: &mut Ctx) {
     let mut preds: Vec<(String, String)> = vec![];
     for name in ["parse_bytes", "parse_escaped_char"] {
         if let Some(m) = s.method("StringParser", name) {
-            sm::for_each_expr_in_block(&m.block, |e| {
-                if let syn::Expr::If(i) = e {
-                    let then = sm::tsc(&i.then_branch);
-                    if then.contains("bytes can only contain ASCII literal characters") {
-                        preds.push((name.to_string(), sm::tsc(&i.cond)));
+            // the decision under which the function leaves with the non-ASCII error (whether written as a guard
+            // clause or as the else-branch of the positive test)
+            for ex in sm::exits(&m.block) {
+                if ex.result.contains("bytes can only contain ASCII literal characters") {
+                    if let Some(c) = ex.conds.last() {
+                        let c = c.strip_prefix("!!").map(|x| x.to_string()).unwrap_or_else(|| c.clone());
+                        preds.push((name.to_string(), c));
                     }
                 }
-            });
+            }
         } else {
             cx.anchor_missing(rule, &format!("StringParser::{}", name));
         }
@@ -692,7 +755,7 @@ fn string_rules(cx: &mut Ctx) {
     let whole = sm::tsx(&s.file);
     let kinds = ["UnclosedLbrace", "InvalidExpression", "InvalidConversionFlag", "EmptyExpression", "MismatchedDelimiter", "ExpressionNestedTooDeeply", "SingleRbrace", "Unmatched", "UnterminatedString"];
     for k in kinds {
-        let n = whole.matches(&format!("FStringError::new({}", k)).count();
+        let n = whole.matches(&format!("FStringError::new({}", k)).count() + whole.matches(&format!("FStringError::new(FStringErrorType::{}", k)).count();
         if n >= 1 {
             cx.ok(rule, &format!("FStringErrorType::{}: {} construction site(s)", k, n));
         } else {
@@ -767,7 +830,14 @@ pub fn leading_zero_rule(cx: &mut Ctx, rule: &str) {
     let placed = bad.len() == 1
         && ints.len() == 1
         && bad[0].conds.last().map_or(false, |c| c == "start_is_zero&&!value.is_zero()")
-        && bad[0].conds[..bad[0].conds.len() - 1] == ints[0].conds[..]
+        && {
+            // the integer exit may or may not carry the negated test (guard clause vs if/else)
+            let mut ic: Vec<String> = ints[0].conds.clone();
+            if ic.last().map_or(false, |c| c == "!start_is_zero&&!value.is_zero()" || c == "!(start_is_zero&&!value.is_zero())") {
+                ic.pop();
+            }
+            bad[0].conds[..bad[0].conds.len() - 1] == ic[..]
+        }
         && t.contains("letvalue=value_text.parse::<BigInt>().unwrap();");
     if zero_def && placed && others_clean {
         cx.ok(rule, "leading-zero decimal literal with non-zero value rejected, on the integer path only");
@@ -808,7 +878,7 @@ fn empty_fstring_field(cx: &mut Ctx) {
                 };
                 found += 1;
                 let t = sm::tsc(&a.body);
-                let guard = t.find("ifexpression.trim().is_empty(){returnErr(FStringError::new(EmptyExpression,");
+                let guard = regex::Regex::new(r"ifexpression\.trim\(\)\.is_empty\(\)\{returnErr\(FStringError::new\((?:FStringErrorType::)?EmptyExpression,").unwrap().find(&t).map(|m| m.start());
                 let first_use = [t.find("parse_fstring_expr("), t.find("conversion="), t.find("self.next_char()")].into_iter().flatten().min();
                 match (guard, first_use) {
                     (Some(g), Some(u)) if g < u => cx.ok(rule, &format!("arm `{}`: empty / blank expression rejected before the text is used", which)),
